@@ -258,6 +258,36 @@ class Monotone(Kernel):
         ob.twin("twin.later_tally_never_passes", znot(res[1][1]))
 
 
+class KaniCross(VC):
+    """second engine: Kani/CBMC on the compiled kernel (path dependency on /repo, so it always sees the current tree).
+    AbsoluteCount over all u64 tallies against the documented formula, and `never passed without Yes` for every threshold kind.
+    A Kani failure while the MIR interpreter proves the same facts is an engine disagreement (exit 2), never a pass."""
+    property_id = "C04"
+    crate = CRATE
+    name = "C04.kani.cross_check"
+
+    def run(self, I, ctx, ob):
+        import os, subprocess, time, shutil
+        from mirsym import build
+        kdir = os.path.join(build.VERIF, "kani")
+        shutil.copy(os.path.join(build.REPO, "Cargo.lock"), os.path.join(kdir, "Cargo.lock"))
+        env = dict(os.environ, CARGO_NET_OFFLINE="true")
+        env.pop("RUSTUP_TOOLCHAIN", None)
+        t0 = time.time()
+        try:
+            r = subprocess.run(["cargo", "kani", "--target-dir", os.path.join(build.WORK, "target-kani")], cwd=kdir, env=env,
+                               stdout=subprocess.PIPE, stderr=subprocess.STDOUT, timeout=1500)
+            out = r.stdout.decode(errors="replace")
+        except subprocess.TimeoutExpired:
+            out = "TIMEOUT"
+        ok = "2 successfully verified harnesses, 0 failures" in out
+        ob.outcome = "kani:" + ("success" if ok else "not-success")
+        ctx.notes.append({"kani_seconds": round(time.time() - t0, 1), "tail": out[-600:]})
+        ob.require("C04.kani_agrees_with_the_mir_interpreter", ok)
+        ob.witness("kani_ran", ok or "VERIFICATION" in out)
+        ob.twin("twin.kani_vacuous", False)
+
+
 KINDS = ["AbsoluteCount", "AbsolutePercentage", "ThresholdQuorum"]
 
 
@@ -270,6 +300,7 @@ def vcs(tier):
         out.append(CurrentStatus(k))
         out.append(Monotone(k, True))
         if k != "AbsoluteCount" and tier == "thorough": out.append(Monotone(k, False))
+    if tier == "thorough": out.append(KaniCross())
     return out
 
 
